@@ -124,7 +124,14 @@ def check_metrics(prog, rep):
     from ..kutil import CannotEvaluate, eval_cond_full
     from ..sym import Sym
     kd = interpret(prog, d, strict=False, inline_depth=0)
-    mparam = d.params[4] if len(d.params) > 4 else None
+    # the metric parameter is the one the dispatch conditions test; the others are the coordinates.  Names and order of the
+    # dispatcher's parameters do not matter: each metric function must receive the four coordinates under its public names
+    # (x1, x2, y1, y2), every coordinate once, and all three the same way
+    from ..kutil import guard_atoms
+    gsyms = {a.name for rec in kd.calls for a in guard_atoms(rec[2]) if isinstance(a, Sym) and a.name in d.params}
+    mparam = next(iter(gsyms)) if len(gsyms) == 1 else None
+    coords = [p_ for p_ in d.params if p_ != mparam]
+    maps = {}
     for cn, fn in want_map.items():
         ok, got = None, None
         if consts.get(cn) is not None and mparam is not None:
@@ -134,11 +141,22 @@ def check_metrics(prog, rep):
                     if all(eval_cond_full(g, {Sym(mparam): Fr(consts[cn])}) for g in rec[2]) and not any(rec[3] is r_[3] for r_ in act):
                         act.append(rec)
                 got = [(r_[0].split('.')[-1], [a[1] if isinstance(a, tuple) and a and a[0] == 'param' else str(a) for a in r_[1]]) for r_ in act]
-                ok = len(act) == 1 and got[0][0] == fn and got[0][1] == d.params[:4]
+                ok = len(act) == 1 and got[0][0] == fn
+                if ok:
+                    tf = m.funcs.get(fn)
+                    kws = act[0][5] if len(act[0]) > 5 and isinstance(act[0][5], dict) else {}
+                    b_ = dict(zip(tf.params, got[0][1])) if tf is not None else {}
+                    b_.update({k_: (v_[1] if isinstance(v_, tuple) and v_ and v_[0] == 'param' else str(v_)) for k_, v_ in kws.items()})
+                    mp = tuple(b_.get(r_) for r_ in ('x1', 'x2', 'y1', 'y2'))
+                    maps[cn] = mp
+                    ok = len(coords) == 4 and sorted(mp, key=str) == sorted(coords)
             except CannotEvaluate as e:
                 got = str(e)
         rep.add('V3', d, entry, '%s -> %s' % (cn, got), d.node.lineno, ok,
-                'metric constant %s must be routed to %s(x1, x2, y1, y2)' % (cn, fn))
+                'metric constant %s must be routed to %s(x1, x2, y1, y2), each coordinate of the dispatcher once' % (cn, fn))
+    if len(maps) == 3 and len(set(maps.values())) != 1:
+        rep.add('V3', d, entry, 'the three metrics receive the coordinates the same way', d.node.lineno, False,
+                'x1/x2/y1/y2 of the metric functions must be the same dispatcher parameters for every metric: %s' % maps)
     # string -> constant mapping: the module-level table, whatever builds it (consteval.py)
     from ..consteval import CannotFold, fold_expr
     tv = m.assigns.get('DISTANCE_METRICS', [])
@@ -176,9 +194,9 @@ def check_units(prog, rep):
     extra = set(table) - set().union(*[a for a, f in UNIT_FAMILIES.values()])
     rep.add('U1', m, entry, 'no other units: %s' % sorted(extra), vals[0].lineno, not extra, 'unexpected unit aliases')
     tm = m.funcs.get('_to_meters')
-    ok = tm is not None and len(tm.node.body) == 1 and norm(tm.node.body[0]).replace(' ', '') in (
-        'returnd*UNITS[unit]', 'returnUNITS[unit]*d')
-    rep.add('U1', tm or m, entry, '_to_meters = d * UNITS[unit]', tm.node.lineno if tm else 1, ok, 'metres = value times the unit factor')
+    tmr = to_meters_roles(prog, tm) if tm is not None else None
+    rep.add('U1', tm or m, entry, '_to_meters = value * UNITS[unit]', tm.node.lineno if tm else 1, tmr is not None,
+            'metres = value times the unit factor of the module table' + (' (value: %s, unit: %s)' % tmr if tmr else ''))
     gd = m.funcs.get('_get_distance')
     if gd is None:
         raise AnalysisIncomplete('_get_distance not found')
@@ -274,7 +292,13 @@ def check_units(prog, rep):
     lowered = bool(found.get('lower') and found['lower'][0])
     if len(rets) == 1 and rets[0].value is not None:
         rv = inline(rets[0].value, straightline_env(body, upto=rets[0]))
-        tm_ok = isinstance(rv, ast.Call) and short(rv) == '_to_meters' and len(rv.args) == 2
+        tm_ok = isinstance(rv, ast.Call) and short(rv) == '_to_meters' and tm is not None and tmr is not None
+        if tm_ok:
+            b_ = dict(zip(tm.params, rv.args))
+            b_.update({k_.arg: k_.value for k_ in rv.keywords if k_.arg})
+            tm_ok = tmr[0] in b_ and tmr[1] in b_
+            if tm_ok:
+                rv = ast.Call(func=ast.Name(id='_to_meters', ctx=ast.Load()), args=[b_[tmr[0]], b_[tmr[1]]], keywords=[])
         if not tm_ok and isinstance(rv, ast.BinOp) and isinstance(rv.op, ast.Mult) and 'UNITS[' in norm(rv):
             # _to_meters inlined: value * UNITS[unit]
             sides = [rv.left, rv.right]
@@ -310,11 +334,13 @@ def check_units(prog, rep):
             comps = []
             for k_, t_ in enumerate(ret[1]):
                 t_, ab = strip_abs(t_)
-                if t_[0] == 'call' and tm_ is not None and t_[1] == tm_.qualname and len(t_[2]) + len(t_[3]) == 2:
+                tmr_ = to_meters_roles(prog, tm_) if tm_ is not None else None
+                if t_[0] == 'call' and tm_ is not None and tmr_ is not None and t_[1] == tm_.qualname:
                     b_ = dict(zip(tm_.params, t_[2]))
                     b_.update(dict(t_[3]))
-                    v_, ab2 = strip_abs(b_.get(tm_.params[0]))
-                    comps.append((k_, v_, b_.get(tm_.params[1]), ab or ab2))
+                    if tmr_[0] in b_ and tmr_[1] in b_:
+                        v_, ab2 = strip_abs(b_.get(tmr_[0]))
+                        comps.append((k_, v_, b_.get(tmr_[1]), ab or ab2))
             if len(comps) == 2:
                 units = []
                 for has in (True, False):
@@ -334,6 +360,59 @@ def check_units(prog, rep):
                 why = 'components (x, y) from the resolution pair: %s; unit from attrs or the default: %s; |y|: %s' % (comp_ok, unit_ok, comps[1][3])
         rep.add('U3', cc, entry, 'calc_cellsize: (x, y) resolution converted to metres', cc.node.lineno, ok,
                 'cell sizes are taken as (x, y) from the resolution helper and converted with the raster\'s unit; ' + why)
+
+
+def _pad_terms(prog, m):
+    """is the np.pad of annulus_kernel the inner circle padded by ((d0, d0), (d1, d1)), dk = (outer.shape[k] - inner.shape[k]) // 2,
+    with zeros - decided on wrapper terms; None when the terms do not show it either way"""
+    from ..wterm import WT, key as tkey
+    akf, ckf = m.funcs.get('annulus_kernel'), m.funcs.get('circle_kernel')
+    if akf is None or ckf is None:
+        return None
+    w = WT(prog, keep=[ckf], two_d=lambda t: isinstance(t, tuple) and t and t[0] == 'call' and t[1] == ckf.qualname)
+    w.run(akf)
+    circ = [x for x in w.calls if x.callee is ckf]
+    pads = [x for x in w.calls if x.name.endswith('.pad')]
+    if len(circ) != 2 or len(pads) != 1:
+        return None
+    rp = {tkey(x.bound.get(ckf.params[2])): x for x in circ if ckf.params[2] in x.bound}
+    O, I = rp.get(tkey(('param', akf.params[2]))), rp.get(tkey(('param', akf.params[3])))
+    if O is None or I is None:
+        return None
+    pc = pads[0]
+    arr = pc.args[0] if pc.args else pc.kwargs.get('array')
+    pw = pc.kwargs.get('pad_width') or (pc.args[1] if len(pc.args) > 1 else None)
+    if arr is None or pw is None:
+        return None
+    want = w.expr('(((o.shape[0] - i.shape[0]) // 2, (o.shape[0] - i.shape[0]) // 2), ((o.shape[1] - i.shape[1]) // 2, (o.shape[1] - i.shape[1]) // 2))',
+                  {'o': O.result, 'i': I.result}, akf)
+    mode = pc.kwargs.get('mode', pc.args[2] if len(pc.args) > 2 else ('const', 'constant'))
+    cv = pc.kwargs.get('constant_values', ('const', 0))
+    if pw[0] != 'tuple':
+        return None
+    return tkey(pw) == tkey(want) and tkey(arr) == tkey(I.result) and mode == ('const', 'constant') and cv in (('const', 0), ('const', 0.0))
+
+
+def to_meters_roles(prog, tm):
+    """(value parameter, unit parameter) of the conversion helper when it returns value * UNITS[unit] - read off the wrapper
+    term of its result, whatever the parameters are called and however they are ordered (a defaulted table parameter is fine)"""
+    from ..wterm import WT, to_rat, atom_term
+    w = WT(prog)
+    dflt = tm.defaults()
+    env = {p_: (w.ev(tm, dflt[p_], {}, 0) if p_ in dflt else ('param', p_)) for p_ in tm.params + tm.kwonly}
+    ret = w.run(tm, env)
+    if ret is None or ret[0] != 'arith':
+        return None
+    r = ret[1]
+    ats = list(r.atoms())
+    if len(ats) != 2:
+        return None
+    terms = [atom_term(a) for a in ats]
+    val = [t for t in terms if t is not None and t[0] == 'param']
+    fac = [t for t in terms if t is not None and t[0] == 'index' and t[1] == ('global', 'UNITS') and t[2][0] == 'param']
+    if len(val) != 1 or len(fac) != 1 or r != to_rat(val[0]) * to_rat(fac[0]):
+        return None
+    return val[0][1], fac[0][2][1]
 
 
 def check_kernels(prog, rep):
@@ -368,6 +447,11 @@ def check_kernels(prog, rep):
     xs = [(n, g) for n, g in grids.items() if not g[1]]
     ys = [(n, g) for n, g in grids.items() if g[1]]
     one, two = Rat.const(1), Rat.const(2)
+    if len(xs) == 1 and len(ys) == 1 and xs[0][1][0] == [-H, H, two * H + one] and ys[0][1][0] == [-W, W, two * W + one]:
+        # the half width is whichever parameter spans the row vector (the columns), the half height the one spanning the
+        # column vector (the rows): the other order of the two parameters (callers are bound by these roles below)
+        hw, hh = hh, hw
+        W, H = H, W
     okx = len(xs) == 1 and xs[0][1][0] == [-W, W, two * W + one]
     oky = len(ys) == 1 and ys[0][1][0] == [-H, H, two * H + one]
     rep.add('E1', f, entry, 'grids %s' % {n: ([show(a_, 20) for a_ in (g[0] or [])], 'column vector' if g[1] else 'row vector') for n, g in grids.items()},
@@ -480,6 +564,11 @@ def check_kernels(prog, rep):
                 const(kw(pads[0], 'mode'), 'constant') == 'constant'
         except (AnalysisIncomplete, AttributeError) as e:
             okp = None
+    if okp is not True:
+        # the same on wrapper terms (loops over the two shapes unrolled: the circles are 2-D)
+        okp2 = _pad_terms(prog, m)
+        if okp2 is not None:
+            okp = okp2 if okp2 else okp
     rep.add('E4', ak, entry, 'annulus = outer circle - padded inner circle', ak.node.lineno, ok,
             'the annulus is the outer circle minus the inner circle padded to the outer shape (a new array: the circles are not '
             'modified in place)')
